@@ -208,6 +208,10 @@ func judge(s *Scenario, o *Obs) *verdict {
 		judgeCloseBlock(s, o, v)
 		return v
 	}
+	if s.M != nil {
+		judgeMapSpawn(s, o, v)
+		return v
+	}
 	top, ok := asList(o.Value)
 	if !ok || len(top) != 3 {
 		v.add("result-shape", "script result is not [sres, rres, post]: %s", show(o.Value))
@@ -685,6 +689,9 @@ func (s *Scenario) hangClass() string {
 	if s.C != nil {
 		return s.C.class()
 	}
+	if s.M != nil {
+		return s.M.class()
+	}
 	if s.Launch > 0 {
 		var parts []string
 		for ch := range s.Chans {
@@ -768,6 +775,12 @@ func drive(d *mon.Driver, replay string) int {
 			for k := 0; k < 2; k++ {
 				plan = append(plan, planned{s: p}, planned{s: p, race: true})
 			}
+		}
+		// threads started through builtin callbacks: items.map(f.spawn) and relatives
+		rms := d.Rand("mapspawn")
+		for i := 0; i < d.N(12, 500); i++ {
+			s := genMapScenario(rms.SplitN(i), i, d.Thorough())
+			plan = append(plan, planned{s: s}, planned{s: s, race: true})
 		}
 		// a channel closed by another goroutine while senders are parked in a blocking send
 		rc := d.Rand("closeblock")
@@ -879,6 +892,8 @@ func drive(d *mon.Driver, replay string) int {
 			nmsg = p.s.D.Rounds
 		} else if p.s.C != nil {
 			nmsg = p.s.C.Rounds
+		} else if p.s.M != nil {
+			nmsg = p.s.M.Rounds
 		}
 		slowest = append(slowest, slowRun{c.ID, o.Ms, p.s.hangClass(), p.s.Procs, nmsg})
 		sort.Slice(slowest, func(i, j int) bool { return slowest[i].Ms > slowest[j].Ms })
@@ -915,6 +930,10 @@ func drive(d *mon.Driver, replay string) int {
 			} else {
 				d.Event("channel_groups_without_overlap", 1)
 			}
+		}
+		if p.s.M != nil {
+			d.Distinct(p.s.M.distinctKey(p.s.Procs))
+			d.Event("callback_spawn_scenarios", 1)
 		}
 		if p.s.C != nil {
 			d.Distinct(p.s.C.distinctKey(p.s.Procs))
